@@ -672,9 +672,9 @@ func gen(tier string, rng *lib.Rand, search bool) []Case {
 		}
 	}
 	// random single / compound mutations
-	n := 500
+	n := 1500
 	if tier == "thorough" {
-		n = 6000
+		n = 8000
 	}
 	if search {
 		n = 20000
